@@ -37,13 +37,14 @@ func sanitizeDestURL(dest string) string {
 }
 
 func resolveDest(dest string, pathName string, matches []string) string {
-	out := strings.ReplaceAll(dest, "$MTX_PATH", pathName)
-
+	// substitute in a single pass, so that inserted values are never scanned again
+	oldnew := make([]string, 0, 2*len(matches)+2)
+	oldnew = append(oldnew, "$MTX_PATH", pathName)
 	for i := len(matches) - 1; i >= 1; i-- {
-		out = strings.ReplaceAll(out, "$G"+strconv.FormatInt(int64(i), 10), matches[i])
+		oldnew = append(oldnew, "$G"+strconv.FormatInt(int64(i), 10), matches[i])
 	}
 
-	return out
+	return strings.NewReplacer(oldnew...).Replace(dest)
 }
 
 // DestHandler manages a forward destination.
